@@ -49,6 +49,10 @@ package main
 //@   requires sandbox != nil && (typeis(sandbox, *rapidcore.EmulatorAPI) ==> sandbox.(*rapidcore.EmulatorAPI) != nil)
 //@   requires w != nil && r != nil
 //@   ensures [C10: the-one-off-initialisation-runs-with-the-cold-start-mutex-held] delta(ColdStartInit) <= 1 && (delta(ColdStartInit) == 1 ==> delta(FrontendLock) >= 1 && delta(FrontendUnlock) >= 1 && first(FrontendLock) < first(ColdStartInit) && first(ColdStartInit) < first(FrontendUnlock))
+// C10 ("extra callers are refused immediately"): the cold-start mutex serialises the one-off initialisation only; it is given back
+// before the sandbox is invoked, so that a caller arriving during an invocation reaches the reservation (and its refusal) at once
+// (stated for requests that find the initialisation done: the initialisation's own lock operations are not told apart from it)
+//@   ensures [C10: the-cold-start-mutex-is-given-back-before-the-sandbox-is-invoked] delta(SandboxInvoke) == 1 && delta(ColdStartInit) == 0 ==> delta(FrontendLock) == 1 && delta(FrontendUnlock) == 1 && first(FrontendUnlock) < first(SandboxInvoke)
 //@   ensures [at-most-one-invoke] delta(SandboxInvoke) <= 1 && (readFails(r.Body) ==> delta(SandboxInvoke) == 0 && ghost(httpStatus) == 500)
 //@   ensures [payload-is-the-request-body] delta(SandboxInvoke) == 1 ==> readerContent(lastarg(SandboxInvoke, 2).Payload) == readerContent(r.Body) && readerLen(lastarg(SandboxInvoke, 2).Payload) == readerLen(r.Body) && typeis(lastarg(SandboxInvoke, 1), *ResponseWriterProxy) && fresh(proxyOf(lastarg(SandboxInvoke, 1))) && fresh(lastarg(SandboxInvoke, 2))
 // C01 ("together with ... the decoded client context"): the invocation record carries exactly the base64 decoding of the header
